@@ -297,6 +297,61 @@ func (c *Ctx) ruleClosureSetters() {
 				}
 			}
 		}
+		// the store happens on every path of an initialised, writable receiver: whatever the
+		// argument (nil removes the closure) and whatever the instance's other state (a rejecting
+		// validity closure, a recorded error), the setter cannot be a silent no-op
+		{
+			fa := c.eng.analyze(fn, nil)
+			loc := "nodeConfig." + slot
+			var writers []*ssa.Call
+			for _, b := range fn.Blocks {
+				for _, in := range b.Instrs {
+					if call, ok := in.(*ssa.Call); ok {
+						if cal := c.p.callee(&call.Call); cal != nil && c.p.inPkg(cal) {
+							for _, w := range c.eff.writesOf(cal) {
+								if w.Loc == loc {
+									writers = append(writers, call)
+									break
+								}
+							}
+						}
+					}
+				}
+			}
+			init, ro := c.initAtom(), c.flagAtom("ronly", "ronly")
+			silent := ""
+			for _, rs := range fa.rets {
+				if rs.st.dead {
+					continue
+				}
+				stored := false
+				for _, cell := range rs.st.heap {
+					if cell.loc == loc {
+						stored = true
+					}
+				}
+				for _, w := range writers {
+					if did, _ := rs.st.get(aDID, c.eng.tt.mk(Term{K: "V", V: w})); did {
+						stored = true
+					}
+				}
+				if stored {
+					continue
+				}
+				if is, known := init.eval(fa, rs.st); known && !is {
+					continue
+				}
+				if is, known := ro.eval(fa, rs.st); known && is {
+					continue
+				}
+				silent = c.p.instrPos(rs.ret)
+			}
+			if silent == "" {
+				rep.ok("R-SETTER", name, "stores on every writable path", c.p.pos(fn.Pos()), "only an uninitialised or read-only receiver leaves the slot alone")
+			} else {
+				rep.bad("R-SETTER", name, "stores on every writable path", c.p.pos(fn.Pos()), "a path ("+silent+") returns without storing although the receiver is not known to be uninitialised or read-only: the closure cannot be installed/removed in that state or with that argument")
+			}
+		}
 		pos := c.p.pos(fn.Pos())
 		if n == 0 {
 			rep.bad("R-SETTER", name, "slot "+slot, pos, "the setter never stores into nodeConfig."+slot)
